@@ -313,6 +313,8 @@ def _process_unit(u, findings, workdir, seed, rlimit_mult=1, variants=('main', '
         if res['timeout']:
             ur.undecided.append('%s: verus timeout' % v)
             continue
+        if 'panicked at' in res['stderr']:
+            ur.undecided.append('%s: verus crashed: %s' % (v, res['stderr'][:300]))
         if res['json'] is None:
             ur.undecided.append('%s: verus produced no JSON result (rc=%s): %s' % (v, res['rc'], res['stderr'][:400]))
         for d in res['diags']:
